@@ -121,9 +121,12 @@ class RuleMd009(RulePlugin):
             self.__inline_token_index += 1
 
         if (
-            not self.__leaf_tokens[self.__leaf_token_index].is_code_block
-            and line
+            line
             and line[-1] == " "
+            and not (
+                self.__leaf_tokens
+                and self.__leaf_tokens[self.__leaf_token_index].is_code_block
+            )
         ):
             self.__next_line_check_for_error(line, context)
         self.__line_index += 1
